@@ -35,7 +35,21 @@ func gateCase(name string, dts []*string) *Case {
 		for i, d := range dts {
 			ins[i] = nil
 			if d != nil {
-				ins[i] = mkTensor(dummyOf(*d))
+				// different shapes at different positions (a gate has no business reshaping or
+				// broadcasting what it is handed)
+				t := dummyOf(*d)
+				if sh := [][]int{nil, {3}, {1}, nil, {2}}[i%5]; sh != nil && len(t.Data) > 0 {
+					t = &TJ{Dt: t.Dt, Shape: sh}
+					for k := 0; k < nelem(sh); k++ {
+						t.Data = append(t.Data, dummyOf(*d).Data[0])
+					}
+				} else if i == 0 && len(t.Data) > 0 {
+					t = &TJ{Dt: t.Dt, Shape: []int{2, 3}}
+					for k := 0; k < 6; k++ {
+						t.Data = append(t.Data, dummyOf(*d).Data[0])
+					}
+				}
+				ins[i] = mkTensor(t)
 			}
 		}
 		orig := append([]tensor.Tensor{}, ins...)
